@@ -8,3 +8,4 @@ pub mod n2;
 pub mod n3;
 pub mod g1;
 pub mod g2;
+pub mod a3;
